@@ -26,6 +26,14 @@ func TestMatrix(t *testing.T) {
 
 		hk.RunEnum(t, "s3/matrix-sample", s, Run)
 
+		var ps []Plan
+
+		for pm, i := PairMatrix(), hk.Seed()%4; i < len(pm); i += 4 {
+			ps = append(ps, pm[i])
+		}
+
+		hk.RunEnum(t, "s3/pair-matrix-sample", ps, Run)
+
 		return
 	}
 
@@ -34,4 +42,5 @@ func TestMatrix(t *testing.T) {
 	}
 
 	hk.RunEnum(t, "s3/matrix", m, Run)
+	hk.RunEnum(t, "s3/pair-matrix", PairMatrix(), Run)
 }
